@@ -189,6 +189,11 @@ func (ss *session) addUFAxioms(u *term.T) {
 	if strings.HasPrefix(u.Name, "inj:") {
 		fam := strings.SplitN(u.Name, ":", 3)[1]
 		var sb strings.Builder
+		if fam == "sha256" && ss.pr.Mode != term.ModeInt {
+			// no input hashes to the all-zero string (used as a sentinel by the
+			// B+ tree): part of the stated hash assumption
+			fmt.Fprintf(&sb, "(assert (not (= %s (_ bv0 256))))\n", ss.pr.Ref(u))
+		}
 		for _, o := range ss.ufs {
 			if !strings.HasPrefix(o.Name, "inj:"+fam+":") {
 				continue
